@@ -165,6 +165,70 @@ def labeled_prefix_bytes(prog, rep, bind, alen, maxlen):
         rep.ok('R07.b', key, file=f.file, line=f.node.lineno, found='%d lengths, %d paths' % (maxlen + 1, n))
 
 
+def operator_octet(prog, rep, clsq):
+    short = clsq.rsplit('.', 1)[-1]
+    fp = prog.func(clsq + '.parse_operator_flag')
+    key = 'operator-decode:%s' % short
+    bad = None
+    n = 0
+    for d in range(256):
+        want = {'EOL': (d >> 7) & 1, 'AND': (d >> 6) & 1, 'LEN': 1 << ((d >> 4) & 3), 'LT': (d >> 2) & 1,
+                'GT': (d >> 1) & 1, 'EQ': d & 1}
+        _f, outs = codec.run(prog, fp.qualname, [Const(d)], {}, may_raise=False)
+        for k, v, st in outs:
+            if k != 'val' or not isinstance(v, Obj) or v.oid not in st.heap:
+                bad = bad or 'octet 0x%02x: %s %s' % (d, k, v.desc() if hasattr(v, 'desc') else v)
+                continue
+            n += 1
+            got = {a: (b.value if isinstance(b, Const) else b.desc()) for a, b in st.heap[v.oid].items.items()}
+            diff = sorted(a for a in want if got.get(a) != want[a])
+            if diff and not bad:
+                bad = 'octet 0x%02x decodes to %s, RFC 5575: %s' % (
+                    d, {a: got.get(a) for a in diff}, {a: want[a] for a in diff})
+    if bad:
+        rep.bad('R07.h', key, file=fp.file, line=fp.node.lineno, func=fp.qualname, found=bad, key=key)
+    elif n >= 256:
+        rep.ok('R07.h', key, file=fp.file, line=fp.node.lineno, found='256 octets')
+    else:
+        rep.undecided('R07.h', key, file=fp.file, line=fp.node.lineno, found='only %d octets evaluated' % n)
+    fc = prog.func(clsq + '.construct_operator_flag')
+    for ln in range(1, 9):
+        key = 'operator-encode:%s:len=%d' % (short, ln)
+        bad = None
+        n = 0
+        for bits in range(32):
+            items = {'EOL': bits & 1, 'LEN': ln}
+            for i, nm in enumerate(('AND', 'LT', 'GT', 'EQ')):
+                if bits >> (i + 1) & 1:
+                    items[nm] = 1
+
+            def mk(st, items=items):
+                o = st.new_obj('dict', hint='flag')
+                st.heap[o.oid].items = {k: Const(v) for k, v in items.items()}
+                return o
+            _f, outs = codec.run(prog, fc.qualname, [mk], {}, may_raise=False)
+            for k, v, st in outs:
+                if k == 'raise':
+                    continue        # refused loudly
+                n += 1
+                want = (items['EOL'] << 7) | (items.get('AND', 0) << 6) | (items.get('LT', 0) << 2) | \
+                    (items.get('GT', 0) << 1) | items.get('EQ', 0)
+                code = {1: 0, 2: 1, 4: 2, 8: 3}.get(ln)
+                if not isinstance(v, Const) or not isinstance(v.value, int):
+                    bad = bad or '%s -> %s' % (items, v.desc() if hasattr(v, 'desc') else v)
+                elif code is None:
+                    bad = bad or 'a %d-octet value is given operator octet 0x%02x: length code %d means %d octets ' \
+                                 'to every decoder' % (ln, v.value, (v.value >> 4) & 3, 1 << ((v.value >> 4) & 3))
+                elif v.value != (want | (code << 4)):
+                    bad = bad or '%s is encoded as 0x%02x, RFC 5575: 0x%02x' % (items, v.value, want | (code << 4))
+        if bad:
+            rep.bad('R07.h', key, file=fc.file, line=fc.node.lineno, func=fc.qualname, found=bad, key=key)
+        elif n:
+            rep.ok('R07.h', key, file=fc.file, line=fc.node.lineno, found='%d flag combinations' % n)
+        else:
+            rep.ok('R07.h', key, file=fc.file, line=fc.node.lineno, found='length refused (raises)', nontrivial=False)
+
+
 def check(prog, rep, tier):
     rep.rule('R07.a', 'family dispatch symmetry: every (AFI, SAFI) MP_REACH / MP_UNREACH construct emits is '
                       'decoded by the same codec class in parse (SR-TE and IPv6 flowspec are construct-only)')
@@ -174,6 +238,11 @@ def check(prog, rep, tier):
                       'construct_rd exactly 8, every label-stack entry is 3 octets')
     rep.rule('R07.d', 'type-tag symmetry: the RD types and ESI types handled by the encoder are handled by the decoder')
     rep.rule('R07.f', 'label bottom-of-stack: the encoder sets the S bit on the last label for every label value')
+    rep.rule('R07.g', 'order and multiplicity kept: no NLRI / MP codec sorts, reverses or de-duplicates a collection '
+                      'of input elements')
+    rep.rule('R07.h', 'flowspec operator octet: for every octet 0..255 the decoder extracts the RFC 5575 fields '
+                      '(e, a, len = 1 << bits 5..4, lt, gt, eq); every length the encoder accepts is encoded as the '
+                      'code the decoder maps back to it')
     rep.assumptions += ['value equality of the round trip is not decided',
                         'a MAC address has six groups (b"".join of one octet per group is 6 octets)']
 
@@ -215,6 +284,7 @@ def check(prog, rep, tier):
     cm = prog.module('yabgp.common.constants')
     f = prog.func(EVPN + '.construct_esi')
     handled_enc = set()
+    esi_pad = {}
     for t in range(0, 6):
         def esi(st, t=t):
             o = st.new_obj('dict', hint='esi')
@@ -230,6 +300,14 @@ def check(prog, rep, tier):
                 sizes.add((0, 0))
                 continue
             sizes.add(esi_size(prog, f, v, s))
+            if isinstance(v, BytesV):
+                pad = 0
+                for p in reversed(BL.flatten(v)):
+                    if p[0] == 'lit' and set(p[1]) <= {0}:
+                        pad += len(p[1])
+                    else:
+                        break
+                esi_pad[t] = min(esi_pad.get(t, 10), pad)
         if sizes and sizes != {(0, 0)}:
             handled_enc.add(t)
         if sizes == {(10, 10)}:
@@ -239,6 +317,39 @@ def check(prog, rep, tier):
                     found='ESI type %d is encoded in %s octets' % (t, sorted(
                         '%s..%s' % (a, b) if a != b else str(a) for a, b in sizes)),
                     expected='exactly 10 octets', key=key)
+    # the decoder reads every value octet the encoder writes (sibling agreement on the 10-octet record)
+    fd = prog.func(EVPN + '.parse_esi')
+    _f, outs = codec.run(prog, EVPN + '.parse_esi', [codec.fixbytes(10, 'esi')], {}, may_raise=False,
+                         record_slices=True)
+    read = {}
+    for k, v, s in outs:
+        if k != 'val':
+            continue
+        tsym = [n for n, i in s.syminfo.items() if i[0] == '!B']
+        if not tsym:
+            continue
+        lo, hi = s.interval(tsym[0])[:2]
+        if lo != hi:
+            continue
+        cov = set()
+        for a in s.actions:
+            if a.kind == 'slice' and a.target == 'esi':
+                cov |= set(range(a.args[0].value, a.args[1].value))
+        read[lo] = cov if lo not in read else (read[lo] & cov)
+    for t in sorted(esi_pad):
+        key = 'esi-read:type%d' % t
+        need = set(range(1, 10 - esi_pad[t]))
+        if t not in read:
+            rep.undecided('R07.c', key, file=fd.file, line=fd.node.lineno, found='no decoder path for this type')
+        elif need - read[t]:
+            rep.bad('R07.c', key, file=fd.file, line=fd.node.lineno, func=fd.qualname,
+                    found='ESI type %d: the encoder writes value octets 1..%d, the decoder never reads octet(s) %s' % (
+                        t, 9 - esi_pad[t], sorted(need - read[t])),
+                    expected='every value octet is decoded', key=key)
+        else:
+            rep.ok('R07.c', key, file=fd.file, line=fd.node.lineno, found='octets 1..%d read' % (9 - esi_pad[t]))
+    rep.floor('R07.c', 'ESI types with a decoder path', len(read), 6)
+
     f = prog.func(VPN + '.construct_rd')
     _f, outs = codec.run(prog, VPN + '.construct_rd', [Opaque('rd')], {}, may_raise=False)
     sizes = set()
@@ -322,6 +433,22 @@ def check(prog, rep, tier):
                     expected='S bit set on the last label for every label value', key=key)
         else:
             rep.ok('R07.f', key, file=f.file, line=f.node.lineno)
+
+    # ---------------------------------------------------------------- R07.g
+    nf, sites = common.reorder_sites(prog, lambda fn: fn.module.name.startswith((
+        'yabgp.message.attribute.nlri', 'yabgp.message.attribute.mpreachnlri', 'yabgp.message.attribute.mpunreachnlri')))
+    for fn, node, what in sites:
+        key = 'reorder:%s:%s' % (fn.qualname, what)
+        rep.bad('R07.g', key, file=fn.file, line=node.lineno, func=fn.qualname,
+                found='%s changes the order / multiplicity of values taken from the input' % what, key=key)
+    if not sites:
+        rep.ok('R07.g', 'order-kept', found='%d codec functions scanned' % nf)
+    rep.floor('R07.g', 'codec functions', nf, 60)
+
+    # ---------------------------------------------------------------- R07.h
+    for fsq in ('yabgp.message.attribute.nlri.ipv4_flowspec.IPv4FlowSpec',
+                'yabgp.message.attribute.nlri.ipv6_flowspec.IPv6FlowSpec'):
+        operator_octet(prog, rep, fsq)
 
     # ---------------------------------------------------------------- R07.d
     def const_compares(qual, var):
